@@ -928,9 +928,9 @@ def rule_deferred_inline(ctx):
     prog = ctx.prog
     b = prog.body("ebr_impl::deferred::Deferred::new")
     r.functions.add(b.name)
-    calls = {n: x for n, x in prog.bodies.items() if n.startswith("ebr_impl::deferred::Deferred::new::call")}
+    calls = {n: x for n, x in prog.bodies.items() if n.startswith("ebr_impl::deferred::Deferred::new::") and x.kind == "fn"}
     if len(calls) != 2:
-        raise AnalysisError("EBR-DEFERRED-INLINE: expected the two nested `call` functions")
+        raise AnalysisError("EBR-DEFERRED-INLINE: expected two nested `call` functions, found %d" % len(calls))
     # classify the nested call fns: reads F directly / reads Box<F>
     kinds = {}
     for n, x in calls.items():
@@ -938,7 +938,7 @@ def rule_deferred_inline(ctx):
         if len(rd) != 1:
             raise AnalysisError("EBR-DEFERRED-INLINE: nested call does not ptr::read exactly once")
         ty = rd[0].type_args()[0]["ty"]
-        kinds[n] = "boxed" if ty.startswith("std::boxed::Box<") else "inline"
+        kinds[(n.split("@L")[0], x.span["line"])] = "boxed" if ty.startswith("std::boxed::Box<") else "inline"
     n_in = n_box = 0
     for p in ctx.ex.paths(b):
         if p.exit[0] != "return":
@@ -973,10 +973,6 @@ def rule_deferred_inline(ctx):
                 installed = x[2][1]
             if x[0] == "fn" and x[1].startswith("ebr_impl::deferred::Deferred::new::call"):
                 installed = x[1]
-        inst_kind = None
-        for n, k in kinds.items():
-            # bodies were disambiguated by line: match by prefix and by unique kind via MIR const
-            pass
         inst_kind = _installed_kind(prog, b, p, kinds)
         if inline:
             n_in += 1
@@ -1001,31 +997,32 @@ def rule_deferred_inline(ctx):
 
 
 def _installed_kind(prog, b, p, kinds):
-    """Which nested `call` is stored into the returned Deferred: find the fn item constant in the
-    MIR block sequence of this path (the two nested fns share a def path; the fact file
-    disambiguates them by line in `kinds`' keys, the MIR constant by its span)."""
+    """Which nested `call` function is stored into the returned Deferred on this path: the fn-item constant that
+    appears in the MIR blocks of the path, matched to the nested fn by def path and definition line."""
     blocks = {bb for (nm, bb) in p.blocks}
+    found = set()
     for bi in sorted(blocks):
         for st in b.blocks[bi]["stmts"]:
             if st["k"] != "assign":
                 continue
             rv = st["rv"]
             ops = []
-            if rv["k"] == "cast":
+            if rv["k"] in ("cast", "use"):
                 ops.append(rv["op"])
-            if rv["k"] == "use":
-                ops.append(rv["op"])
+            if rv["k"] == "aggregate":
+                ops.extend(rv["fields"])
             for o in ops:
                 c = o.get("const")
-                if c and c.get("fn", "").startswith("ebr_impl::deferred::Deferred::new::call"):
-                    line = st["span"]["line"]
-                    # nearest nested fn defined above this line
-                    best = None
-                    for n in kinds:
-                        ln = int(n.split("@L")[1]) if "@L" in n else prog.bodies[n].span["line"]
-                        if ln <= line and (best is None or ln > best[0]):
-                            best = (ln, n)
-                    return kinds[best[1]] if best else None
+                if c and c.get("fn", "").startswith("ebr_impl::deferred::Deferred::new::"):
+                    key = (c["fn"], c.get("fn_def_line"))
+                    if key in kinds:
+                        found.add(kinds[key])
+                    else:
+                        same = [v for (n, ln), v in kinds.items() if n == c["fn"]]
+                        if len(same) == 1:
+                            found.add(same[0])
+    if len(found) == 1:
+        return found.pop()
     return None
 
 
